@@ -69,6 +69,7 @@ func init() {
 	Plans["C05"] = planC05
 	Plans["C12"] = planC12
 	Plans["C06"] = planC06
+	Plans["C14"] = planC14
 	Plans["C07"] = planC07
 }
 
@@ -556,5 +557,62 @@ func planC07(tier string, seed int64) (*Plan, error) {
 		"sync.Once, sync.Pool (inside regexp and fmt) and bufio are trusted to meet their documented contracts; loads of Once-initialised cells are not tracked; rendering the same tree from two goroutines is outside",
 	}
 	p.Rule = "fresh instance per path, frozen together with all goldmark globals before its first use"
+	return p, nil
+}
+
+func planC14(tier string, seed int64) (*Plan, error) {
+	p := &Plan{MustReach: []string{"done", "failed", "not-failed"}}
+	core, allU := cfg("core", "", ""), cfg(allExt, "autoid,attr", "unsafe,xhtml")
+	thorough := tier == "thorough"
+	for _, c := range []string{core, allU} {
+		for n := 0; n <= 2; n++ {
+			p.Jobs = append(p.Jobs, job("H_c14_writer", "cfg", c, "n", n, "mode", 0))
+			p.Jobs = append(p.Jobs, job("H_c14_writer", "cfg", c, "n", n, "mode", 1, "bufsize", 16))
+		}
+	}
+	docs, err := LoadCorpus()
+	if err != nil {
+		return nil, err
+	}
+	nd := 60
+	if thorough {
+		nd = 800
+	}
+	r := rand.New(rand.NewSource(seed))
+	picked := 0
+	for _, i := range r.Perm(len(docs)) {
+		d := docs[i]
+		if len(d.Markdown) == 0 || len(d.Markdown) > 90 {
+			continue
+		}
+		mode := picked % 2
+		p.Jobs = append(p.Jobs, job("H_c14_writer", "cfg", allU, "doc", d.Markdown, "mode", mode, "bufsize", 16+picked%3*8))
+		picked++
+		if picked >= nd {
+			break
+		}
+	}
+	// documents whose output exceeds the renderer's 4096-byte buffer once and twice, and one
+	// unbroken chunk larger than the buffer (bufio's direct-write path)
+	big := []struct {
+		doc string
+		rep int
+	}{{"a *b* `c` <i>d</i> &amp; [e](f)\n\n", 120}, {"a *b* `c` <i>d</i> &amp; [e](f)\n\n", 260}, {"xxxxxxxxxxxxxxxxxxxxxxxxxxxxxxxxxxxxxxxx", 230}, {"    cccccccccccccccccccccccccccccccccccccccccccccccccccccccccccc", 150}}
+	for _, b := range big {
+		for _, k := range []int{0, 1, 4095, 4096, 4097, 8191, 8192, 8193, 5000, 9000} {
+			p.Jobs = append(p.Jobs, job("H_c14_writer", "cfg", allU, "doc", b.doc, "repeat", b.rep, "mode", 0, "k", k))
+		}
+		for _, ke := range []int{-1, 0, 1} {
+			p.Jobs = append(p.Jobs, job("H_c14_writer", "cfg", allU, "doc", b.doc, "repeat", b.rep, "mode", 0, "kend", ke))
+		}
+		p.Jobs = append(p.Jobs, job("H_c14_writer", "cfg", allU, "doc", b.doc, "repeat", b.rep, "mode", 1, "bufsize", 4096, "k", 4500))
+	}
+	p.Bounds = map[string]interface{}{
+		"symbolic documents": "every byte string of length 0..2 x {core, all extensions+unsafe+xhtml} x every fault offset k in [0, len(output)+1] (symbolic), renderer-owned 4096-byte buffer and caller-owned 16-byte bufio.Writer",
+		"corpus":             fmt.Sprintf("%d seeded corpus documents (<=90 bytes) x every fault offset k (symbolic), alternating renderer-owned buffer and caller-owned bufio.Writer of 16/24/32 bytes", nd),
+		"large":              "4 generated documents with 4.5-10 KB of output (several flushes; one unbroken 9 KB chunk) x k in {0,1,4095,4096,4097,5000,8191,8192,8193,9000,len-1,len,len+1}",
+		"writer":             "accepts exactly k bytes, then short write + error, then fails on every call",
+		"outside":            "node-renderer errors, writers that fail transiently and recover",
+	}
 	return p, nil
 }
